@@ -147,5 +147,13 @@ func VC04Select() {
 			vAssertExcept(!want, "matching message missing from the read", "C04-K1", carve)
 		}
 	}
+	// Info asked AFTER a filtered read on the same Reader still describes the whole file (C08's Info clause under
+	// a call sequence that a cached, filter-dependent summary would get wrong)
+	if idx == 1 {
+		if info, ierr := r.Info(); ierr == nil {
+			vAssert(len(info.Channels) == 3, "Info after a filtered read lists every channel")
+			vAssert(len(info.ChunkIndexes) == len(w.ChunkIndexes), "Info after a filtered read lists every chunk")
+		}
+	}
 	vReach("end")
 }
